@@ -111,16 +111,20 @@ Fixpoint flush (c : cfg) (t p : Z) (h : nat) (hasbp : bool) (leader : Z) (lv : l
   | O => ((O, hasbp, leader, lv), [ECrash CR_LEVEL])
   | S h' =>
       let buf := l_buf (get_level h' lv) in
-      let '(hasbp1, leader1, effs1, ls1, sq1) :=
-        if hasbp then let '(e, sq') := flush_sends c t p (fst stamp) (snd stamp) buf in (true, leader, e, ls, sq')
+      let '(hasbp1, leader1, effs1, ls1, stamp1) :=
+        if hasbp then let '(e, sq') := flush_sends c t p (fst stamp) (snd stamp) buf in (true, leader, e, ls, (sq', snd stamp))
         else match next_lres ls with
              | (LOk b, r) => let '(e, sq') := flush_sends c t p (fst stamp) (snd stamp) buf in
-                             (true, b, leader_effects c t p b ++ e, r, sq')
-             | (LFail e, r) => (false, leader, return_errors buf e, r, fst stamp)
+                             (true, b, leader_effects c t p b ++ e, r, (sq', snd stamp))
+             | (LFail e, r) =>
+                 (* failing sequenced messages bumps the epoch and resets every sequence: the levels below are
+                    stamped under the new epoch, from sequence 0 *)
+                 let nb := bumps (return_errors buf e) in
+                 (false, leader, return_errors buf e, r, if 0 <? nb then (0, snd stamp + nb) else stamp)
              end in
       let lv1 := set_buf h' [] lv in
       if l_chaser (get_level h' lv) || (h' =? 0)%nat then ((h', hasbp1, leader1, lv1), effs1)
-      else let '(res, effs2) := flush c t p h' hasbp1 leader1 lv1 (sq1, snd stamp) ls1 in (res, effs1 ++ effs2)
+      else let '(res, effs2) := flush c t p h' hasbp1 leader1 lv1 stamp1 ls1 in (res, effs1 ++ effs2)
   end.
 
 (* the tail of the loop body: obtain a broker worker if there is none, stamp, forward *)
